@@ -12,14 +12,14 @@ import (
 // Binary operators are always surrounded by spaces so that deleting a segment never merges tokens.
 
 type TSGen struct {
-	r     *Rand
+	r                   *Rand
 	NoInlineTypeImports bool // verbatimModuleSyntax keeps `import {} from` for them by definition
-	tsx   bool // .tsx rules: no angle-bracket casts, generic arrows need a trailing comma
-	n     int
-	Stats map[string]int
-	vars  []string
-	fns   []string
-	clss  []string
+	tsx                 bool // .tsx rules: no angle-bracket casts, generic arrows need a trailing comma
+	n                   int
+	Stats               map[string]int
+	vars                []string
+	fns                 []string
+	clss                []string
 }
 
 func NewTSGen(r *Rand, tsx bool) *TSGen {
@@ -376,7 +376,7 @@ func (g *TSGen) classMember(d int) string {
 		return n + m("!") + g.ann(d) + ";"
 	case 4:
 		g.stat("member:declare-field")
-		return m(pick(r, "declare ", "declare readonly ", "private declare ", "static declare ", "declare static ")+n+": "+g.Type(d)+";")
+		return m(pick(r, "declare ", "declare readonly ", "private declare ", "static declare ", "declare static ") + n + ": " + g.Type(d) + ";")
 	case 5:
 		g.stat("member:index-signature")
 		return m(pick(r, "", "static ", "readonly ") + "[key: string]: " + g.Type(d) + ";")
